@@ -104,6 +104,13 @@ pub fn exec_child(bin: &Path, case: &Case, wrapper: &[String], show_stderr: bool
     // both pipes are drained concurrently
     let outp = ch.wait_with_output();
     WATCH.lock().unwrap().retain(|(p, _)| *p != pid);
+    // a child of the net families that was killed or ended by a violation leaves the
+    // paths of its unix listeners behind (fam/net.rs `unix_path`)
+    if case.fam.starts_with("net") {
+        for conn in [0usize, 1, 2, 3, 4, 99] {
+            let _ = std::fs::remove_file(format!("/tmp/mv-{pid}-{conn}.sock"));
+        }
+    }
     let (so, se, status) = match outp {
         Ok(o) => (String::from_utf8_lossy(&o.stdout).to_string(), String::from_utf8_lossy(&o.stderr).to_string(), Ok(o.status)),
         Err(e) => (String::new(), String::new(), Err(e)),
